@@ -43,8 +43,21 @@ Qed.
 Lemma np_cast_classes py d v e :
   np_cast py d v = Raise e -> e = ValueError \/ e = TypeError \/ e = OverflowError.
 Proof.
-  destruct d; destruct v as [z|f|b|x|]; try destruct f; destruct py; simpl; intros H; inversion H; auto.
+  destruct d; destruct v as [z|f|b|x|]; try destruct f; destruct py; simpl;
+    try destruct (parse_half x); try destruct (parse_int x); repeat match goal with |- context [if ?c then _ else _] => destruct c end;
+    intros H; inversion H; auto.
 Qed.
+
+(* text cells convert when they spell a number of the kind asked for; a cell that does not convert fails the WHOLE assignment
+   (C09_failed_single_assignment_no_change): array(['13', '13.5', '7']) into an int series raises, the series keeps [1; 2; 3] *)
+Example text_cells :
+  np_cast false DFloat (PStr "1.5") = Ret (PFlt (FHalf 3)) /\ np_cast false DFloat (PStr "-3") = Ret (PFlt (FHalf (-6))) /\
+  np_cast false DFloat (PStr "7.0") = Ret (PFlt (FHalf 14)) /\ np_cast false DFloat (PStr "n/a") = Raise ValueError /\
+  np_cast false DInt (PStr "13") = Ret (PInt 13) /\ np_cast false DInt (PStr "13.5") = Raise ValueError /\
+  np_step (SetAttr "X" (OArr [3] (DStr 4) [PStr "13"; PStr "13.5"; PStr "7"]) None) w0 = (w0, Raise ValueError) /\
+  np_step (SetItem (KSlice "X" (Some 10%Z) (Some 11%Z) None) (OArr [2] (DStr 4) [PStr "13"; PStr "13.5"])) w0 = (w0, Raise ValueError) /\
+  snd (np_step (SetAttr "X" (OArr [3] (DStr 2) [PStr "13"; PStr "-3"; PStr "7"]) None) w0) = Ret tt.
+Proof. vm_compute. repeat split. Qed.
 
 (* the NumPy tables of this image satisfy the three hypotheses *)
 Theorem np_no_other_error o s : in_scope (kind s) o -> Inv s -> snd (np_step o s) <> Raise OtherError.
